@@ -94,14 +94,60 @@ def s39_region(item):
             return False
         return all(const(x) for x in e[1:] if isinstance(x, tuple))
 
+    def has_lit(e):
+        return isinstance(e, tuple) and (e[0] == "lit" or any(has_lit(x) for x in e[1:]))
+
     def walk(e):
         if not isinstance(e, tuple):
             return False
         if e[0] in ("and", "or") and any(const(x) and x[0] != "int" for x in e[1:]):
             return True
+        # likewise `!k` and `k1 CMP k2` over constants that involve a typed literal (pure integers fold earlier)
+        if e[0] == "not" and const(e[1]) and has_lit(e[1]):
+            return True
+        if e[0] == "cmp" and const(e[2]) and const(e[3]) and (has_lit(e[2]) or has_lit(e[3])):
+            return True
         return any(walk(x) for x in e[1:])
 
     return any(walk(d[2]) for d in item.decls if d[0] in ("sig", "int"))
+
+
+def s43_region(item):
+    """known finding S43: with optimisation, a named signal whose value is a compile-time constant is replaced
+    by a folded constant node, but rows of a multi-condition decider (a && / || chain of comparisons) that
+    mention it are not rewired to that node: the row reads 0"""
+    if not item.opts.get("optimize", True):
+        return False
+    decls = item.decls
+    kinds = [d[0] for d in decls]
+
+    def const(e):
+        if e[0] in ("int", "lit"):
+            return e[0] == "int" or const(e[2])
+        if e[0] == "var":
+            return kinds[e[1]] == "int" or (kinds[e[1]] == "sig" and const(decls[e[1]][2]))
+        if e[0] == "sel":
+            return False
+        return all(const(x) for x in e[1:] if isinstance(x, tuple))
+
+    def chain_cmps(e, op):
+        if e[0] == op:
+            return chain_cmps(e[1], op) + chain_cmps(e[2], op)
+        return [e]
+
+    def walk(e):
+        if not isinstance(e, tuple):
+            return False
+        if e[0] in ("and", "or"):
+            for c in chain_cmps(e, e[0]):
+                if c[0] == "cmp" and any(x[0] == "var" and kinds[x[1]] == "sig" and const(x) for x in c[2:]):
+                    return True
+        return any(walk(x) for x in e[1:])
+
+    exprs = [d[2] for d in decls if d[0] in ("sig", "int")]
+    exprs += [en["enable"] for en in (item.entities or []) if en.get("enable") is not None]
+    exprs += [m_[k] for m_ in (getattr(item, "mems", None) or {}).values() for k in ("data", "when", "set", "reset") if m_.get(k) is not None]
+    return any(walk(e) for e in exprs)
 
 
 def _classify_wiring(item):
@@ -158,7 +204,7 @@ def check_items(prop, items, seed=0, do_search=True, per=6):
     extra_imports = S.EXTRA + (" Proofs.EmbedProofs" if any(getattr(it, "parts", None) for it in items) else "")
     results, logs, cmd = H.shard_cases(prop, cases, extra_imports, per=per)
     for it in items:
-        if getattr(it, "meta", None) and it.meta.get("c20_expr"):
+        if getattr(it, "meta", None) and it.meta.get("c20_expr") and (it.id + "A") in results:
             it.c20_ok = bool(results.get(it.id + "A"))
     by_id = {it.id: it for it in items}
     failing = []
@@ -205,6 +251,8 @@ def check_items(prop, items, seed=0, do_search=True, per=6):
             it.status = "known:S9"
         elif ideal_ok is False and s39_region(it):
             it.status = "known:S39"
+        elif ideal_ok is False and s43_region(it):
+            it.status = "known:S43"
         elif ideal_ok and _classify_wiring(it):
             it.status = "known:S12"
         elif ideal_ok is False and s16:
